@@ -178,6 +178,27 @@ def discrepanciesO (lo : List (CLog × Int)) : List Disc :=
 
 def discrepancies (logs : List CLog) : List Disc := discrepanciesO (logs.map (fun l => (l, 0)))
 
+-- ---------------------------------------------------------------- the hypothesis of `projection_refines_replay`
+
+/-- no key twice -/
+def distinctKeys : Meta → Bool
+  | [] => true
+  | kv :: rest => !(rest.any (fun x => x.1 == kv.1)) && distinctKeys rest
+
+/-- the metadata maps an entry carries (transaction metadata, the maps of the script's account metadata, the map of a SET_METADATA)
+are maps: no key twice.  That is what a JSON object in `jsonb` and a Go `map[string]string` are; `Store.Meta` and `Sql.J.obj` are
+association lists and could say otherwise. -/
+def wellFormedLog (l : CLog) : Bool :=
+  match l.payload with
+  | .newTx tx am => distinctKeys tx.metadata && am.all (fun km => distinctKeys km.2)
+  | .revert _ tx => distinctKeys tx.metadata
+  | .setMeta _ m => distinctKeys m
+  | .delMeta _ _ => true
+
+/-- **`WellFormedHistory`**, the only hypothesis of `C04.projection_refines_replay`: every metadata map of every entry has distinct
+keys.  Nothing is asked of ids, dates, revert targets or metadata targets. -/
+def wellFormedHistory (logs : List CLog) : Bool := logs.all wellFormedLog
+
 -- ---------------------------------------------------------------- shapes of history on which the projection USED TO differ
 /-! Diagnostic only: before the repairs of `insert_move`, `insert_posting` (0-init-schema.sql) and `ParseTime` these three shapes
 were the recorded findings F24 / F29 / F25; nothing is excused by them any more (`smallScopeOk` asks for `discrepancies = []`).
